@@ -449,6 +449,152 @@ func (h *hist) known() {
 	}
 }
 
+// concurrent runs Index calls of manifests that share layers (or are the same
+// manifest) at the same time on one deployment, their datastore calls
+// interleaved by the seeded scheduler, and checks that every session that was
+// not made to fail returns exactly the cold-run report, that the store ends up
+// consistent, and that nothing is scanned more often than the sessions can
+// account for. No protocol lines (the model is sequential); the theorems that
+// speak about this are the interleaving invariants of C07.
+func concurrent(r *hx.Run, q *ctrl.Session, rnd *hx.Rand) {
+	q.Reset()
+	cfg := c07.GenConfig(rnd, rnd.U64())
+	for i := range cfg {
+		// scanners that misbehave by design are out of scope here
+		cfg[i].Flags = strings.NewReplacer("N", "", "X", "").Replace(cfg[i].Flags)
+	}
+	q.Config(cfg)
+	base := c07.GenManifest(rnd, 3)
+	var ms [][]int
+	for n := 2 + rnd.Intn(2); len(ms) < n; {
+		nbase := 0
+		for _, m := range ms {
+			if ctrl.LayersString(m) == ctrl.LayersString(base) {
+				nbase++
+			}
+		}
+		x := rnd.Intn(4)
+		if x == 0 && nbase >= 2 {
+			x = 1 // at most two sessions wait for one manifest lock (who gets it third is not decided by the schedule)
+		}
+		switch x {
+		case 0:
+			ms = append(ms, base) // the same manifest: the manifest lock serialises them
+		case 1:
+			ms = append(ms, c07.GenManifest(rnd, 3))
+		default: // shares layers with base
+			m := append([]int{}, base...)
+			m = append(m, 1+rnd.Intn(6))
+			if rnd.Chance(1, 2) {
+				m = m[1:]
+			}
+			ms = append(ms, m)
+		}
+	}
+	if rnd.Chance(1, 3) {
+		q.Index(base, ctrl.Script{}, false) // some layers are already scanned
+	}
+	// the shape of finding report-clobbered: a failed attempt on a manifest that is recorded as indexed
+	pre := map[string]bool{}
+	for _, m := range ms {
+		pre[ctrl.LayersString(m)] = strings.Contains(q.W.ScannedBy(m), "1") && !strings.Contains(q.W.ScannedBy(m), "0")
+	}
+	marked := map[string]bool{}
+	for _, m := range ms {
+		for _, l := range m {
+			for _, k := range q.W.Keys() {
+				if q.W.Store.HasLayerScanned(ctrl.LayerDigest(l).String(), k) {
+					marked[fmt.Sprintf("%d|%v", l, k)] = true
+				}
+			}
+		}
+	}
+	faultAt := -1
+	if rnd.Chance(1, 3) {
+		faultAt = rnd.Intn(80)
+	}
+	s0 := len(q.W.Scans)
+	out, order := q.W.IndexConcurrently(ms, rnd, faultAt)
+	var lines []string
+	for _, d := range out {
+		lines = append(lines, d.Line())
+		q.Manifests[ctrl.LayersString(d.Layers)] = d.Layers
+	}
+	wit := fmt.Sprintf("config %s; concurrent Index of %d manifests, datastore calls interleaved as %s, fault at granted call %d => %s", cfg, len(ms), order, faultAt, strings.Join(lines, " ; "))
+	r.Case("concurrent "+wit, true)
+	r.Count(fmt.Sprintf("concurrent.sessions=%d", len(ms)))
+	anyFault := false
+	clobbered := map[string]bool{}
+	for _, d := range out {
+		if d.Faulted && pre[ctrl.LayersString(d.Layers)] {
+			clobbered[ctrl.LayersString(d.Layers)] = true
+		}
+	}
+	for _, d := range out {
+		if d.Res.Hang || d.Res.Panic {
+			r.Fail("", "concurrent Index did not return normally: "+wit)
+			return
+		}
+		if d.Faulted {
+			anyFault = true
+			r.Count("concurrent.session-faulted")
+			if d.Res.ErrClass == "nil" && (d.Res.Success || !d.Res.ErrSet) {
+				r.Fail("", "a datastore call of the session failed but Index returned a nil error and a report that does not carry an error: "+wit)
+			}
+			continue
+		}
+		cold := q.Cold(cfg, d.Layers)
+		if !(d.Res.ErrClass == "nil" && d.Res.Success && d.Res.State == "IndexFinished" && !d.Res.ErrSet && d.Res.Body == cold.Body && d.Res.Scanned) {
+			// a session behind a failed attempt on the same manifest is a retry: still must converge
+			cls := ""
+			if clobbered[ctrl.LayersString(d.Layers)] {
+				cls = FindingClobber
+			}
+			r.Fail(cls, fmt.Sprintf("a concurrent Index differs from the cold run of %s (%s): %s", ctrl.LayersString(d.Layers), cold.Line(), wit))
+		}
+	}
+	// nothing that was recorded as scanned is scanned again; a pair is scanned at most once per session that holds the layer
+	count := map[string]int{}
+	for _, ev := range q.W.Scans[s0:] {
+		k := fmt.Sprintf("%d|%v", ev.Layer, ev.Scanner)
+		count[k]++
+		if marked[k] {
+			r.Fail("", "a (layer, scanner) pair recorded as scanned was scanned again by a concurrent Index: "+k+": "+wit)
+		}
+	}
+	for k, c := range count {
+		holders := map[string]bool{}
+		for _, m := range ms {
+			for _, l := range m {
+				if strings.HasPrefix(k, fmt.Sprintf("%d|", l)) {
+					holders[ctrl.LayersString(m)] = true // sessions of one manifest are serialised by its lock: they count once
+				}
+			}
+		}
+		if c > len(holders) && !anyFault {
+			r.Fail("", fmt.Sprintf("pair %s was scanned %d times by %d distinct manifests: %s", k, c, len(holders), wit))
+		}
+	}
+	for _, b := range q.CheckStore() {
+		r.Fail(b.Class, b.Msg+": "+wit)
+	}
+	// afterwards every manifest that succeeded is answered from the store
+	for _, d := range out {
+		if d.Faulted {
+			continue
+		}
+		res := q.Index(d.Layers, ctrl.Script{}, false)
+		cold := q.Cold(cfg, d.Layers)
+		if res.Trace != "MGR" || res.Body != cold.Body {
+			cls := ""
+			if clobbered[ctrl.LayersString(d.Layers)] && res.Trace == "MGR" {
+				cls = FindingClobber
+			}
+			r.Fail(cls, fmt.Sprintf("after the concurrent calls, re-submitting %s is not a lookup of the cold-run report: %s ; %s", ctrl.LayersString(d.Layers), res.Line(), wit))
+		}
+	}
+}
+
 // knownMore replays the witness of finding unconfigured-scanner-marked and the
 // by-design exception (result.Do accepts a scanner's *net.AddrError).
 func (h *hist) knownMore() {
@@ -579,6 +725,12 @@ func Run(cfg hx.Config) error {
 				h.index(family[rnd.Intn(nman)], ctrl.Script{})
 			}
 		}
+	}
+	// concurrent Index calls on one deployment (direct checks only)
+	q := ctrl.NewSession(r)
+	q.Quiet = true
+	for i, n := 0, cfg.N(400, 4000); i < n && !r.Stop() && !q.Lost; i++ {
+		concurrent(r, q, rnd)
 	}
 	r.Notes["store"] = "in-memory indexer.Store (go/internal/memstore) following datastore/postgres method by method; every method atomic"
 	r.Notes["cold run"] = "libindex.New with the same configuration on a fresh memstore, one fault-free Index of the manifest"
